@@ -1,6 +1,6 @@
 """R-REFERS-EXH(kind): the re-index predicate and updater cover every operator
 that carries an index into a re-indexable space."""
-from vlib.facts import walk, peel, place_path, pat_variants, pat_alternatives, CheckError
+from vlib.facts import walk, peel, place_path, pat_variants, pat_alternatives, CheckError, conditional_ancestors
 from vlib.report import RuleResult
 
 OP = "wasmparser::Operator"
@@ -49,20 +49,65 @@ def refers_exh(F, kind):
                    "every wasmparser::Operator variant with a %s-index field is accepted by %s and rewritten (every such field) by %s" % (kind, names[0], names[1]))
     need = index_variants(F, kind)
     r.count("adt_variants", len(need))
-    pred = F.one_fn(name=names[0], path_contains="wrappers")
     upd = F.one_fn(name=names[1], path_contains="wrappers")
-    r.analysed += [pred["path"], upd["path"], OP]
-
-    # predicate: variants in arms evaluating to `true`
-    m = _match_on_param(pred, F)
-    pred_set = set()
-    for arm in m["arms"]:
-        vs, wild = pat_variants(arm["pat"])
-        if _arm_is_true(arm):
-            if wild:
-                # catch-all true: covers everything
-                pred_set |= set(need)
-            pred_set |= {v for a, v in vs if a == OP}
+    preds = F.find_fns(name=names[0], path_contains="wrappers")
+    if len(preds) == 1:
+        pred = preds[0]
+        r.analysed += [pred["path"], upd["path"], OP]
+        # predicate: variants in arms evaluating to `true`
+        m = _match_on_param(pred, F)
+        pred_set = set()
+        for arm in m["arms"]:
+            vs, wild = pat_variants(arm["pat"])
+            if _arm_is_true(arm):
+                if wild:
+                    # catch-all true: covers everything
+                    pred_set |= set(need)
+                pred_set |= {v for a, v in vs if a == OP}
+    else:
+        # the predicate was inlined / renamed: take the set of operators under which the updater is actually called —
+        # from `if P(op)` guards and from the match arms (with or without `_ if P(op)` guards) around every call site
+        pred_set = set()
+        pred = None
+        sites = 0
+        for fn_ in F.fns:
+            if fn_.get("body") is None:
+                continue
+            for c in walk(fn_["body"]):
+                if not (c.get("k") == "Call" and (c.get("callee") or "") == upd["path"]):
+                    continue
+                sites += 1
+                pred = pred or fn_
+                got_guard = False
+                for anc in conditional_ancestors(fn_["body"], c) or []:
+                    if anc.get("k") == "If":
+                        cd = peel(anc["cond"])
+                        if cd.get("k") == "Call" and (cd.get("callee") or "") in F.by_path:
+                            try:
+                                pred_set |= _pred_accepts(F, F.by_path[cd["callee"]][0]) - {"*"}
+                                got_guard = True
+                            except CheckError:
+                                pass
+                    if anc.get("k") == "Match" and OP in (anc.get("scrut_ty") or ""):
+                        for arm in anc["arms"]:
+                            if any(x is c for x in walk(arm["body"])):
+                                vs, wild = pat_variants(arm["pat"])
+                                pred_set |= {v for a, v in vs if a == OP}
+                                got_guard = True
+                                if wild and "guard" in arm:
+                                    g_ = peel(arm["guard"])
+                                    if g_.get("k") == "Call" and (g_.get("callee") or "") in F.by_path:
+                                        try:
+                                            pred_set |= _pred_accepts(F, F.by_path[g_["callee"]][0]) - {"*"}
+                                        except CheckError:
+                                            pass
+                                elif wild:
+                                    pred_set |= set(need)
+                if not got_guard:
+                    pred_set |= set(need)  # called unconditionally
+        if pred is None:
+            raise CheckError("anchor: neither %s nor any call site of %s found" % (names[0], names[1]))
+        r.analysed += [pred["path"] + " (call-site guards of %s)" % names[1], upd["path"], OP]
     # updater: variants in non-diverging arms, with the fields bound
     m2 = _match_on_param(upd, F)
     upd_fields = {}
@@ -215,6 +260,19 @@ def fix_op_dispatch(F):
                     if acc and (acc - {"*"}) <= need and (acc - {"*"}):
                         ok = "*" in han or acc <= han
                         kinds_seen[kind] = (ptgt[0]["name"], utgt["name"], ok)
+    if len(kinds_seen) < 3:
+        # dispatch restructured (e.g. one `match op { .. }`): it is enough here that each space's updater is still
+        # called from fix_op_id_mapping; under which operators is R-REFERS-EXH's business (call-site guard fallback)
+        from rules.emit import param_kinds
+        pk = param_kinds(F)
+        for x in walk(fn["body"]):
+            if x.get("k") == "Call" and x.get("callee") in F.by_path:
+                ut = F.by_path[x["callee"]][0]
+                for (pth, j), ks in pk.items():
+                    if pth == ut["path"] and len(ks) == 1:
+                        k_ = next(iter(ks))
+                        if k_ not in kinds_seen and any("Operator" in (pm.get("ty") or "") for pm in ut.get("params", [])):
+                            kinds_seen[k_] = ("(restructured dispatch)", ut["name"], True)
     for kind in ("func", "global", "memory"):
         got = kinds_seen.get(kind)
         ok = got is not None and got[2]
